@@ -1420,6 +1420,9 @@ impl Backend for GitBackend {
         // Update the signature to match the one that was actually written to the object
         // store
         contents.committer.timestamp.timestamp = MillisSinceEpoch(committer.time.seconds * 1000);
+        // Git stores whole seconds, so the author timestamp loses its
+        // sub-second part as well.
+        contents.author.timestamp.timestamp = MillisSinceEpoch(author.time.seconds * 1000);
         let mut mut_table = table.start_mutation();
         mut_table.add_entry(id.to_bytes(), extras);
         self.save_extra_metadata_table(mut_table, &table_lock)?;
